@@ -54,7 +54,13 @@ def _spawn(prop, tier, seed, shard, nshards, cases, budget, out, params):
         PY, "-m", "vfpy.shard", prop, tier, str(seed), str(shard), str(nshards), str(cases),
         str(budget), out, json.dumps(params),
     ]
-    return subprocess.Popen(cmd, cwd=str(ROOT), stdout=subprocess.PIPE, stderr=subprocess.STDOUT)
+    # output goes to a file, never to a pipe: a shard that logs more than the pipe buffer holds
+    # (e.g. warnings with tracebacks from the code under observation) would block forever
+    log = open(out + ".log", "wb")
+    try:
+        return subprocess.Popen(cmd, cwd=str(ROOT), stdout=log, stderr=subprocess.STDOUT)
+    finally:
+        log.close()
 
 
 def run_check(prop: str, tier: str, seed: int, overrides: dict | None = None) -> int:
@@ -93,7 +99,14 @@ def run_check(prop: str, tier: str, seed: int, overrides: dict | None = None) ->
                         shard_errors.append(f"shard {s}: hard timeout after {hard:.0f}s")
                         del running[s]
                     continue
-                output = proc.stdout.read().decode("utf-8", "replace") if proc.stdout else ""
+                try:
+                    with open(out + ".log", "rb") as lf:
+                        lf.seek(0, 2)
+                        size = lf.tell()
+                        lf.seek(max(0, size - 3000))
+                        output = lf.read().decode("utf-8", "replace")
+                except OSError:
+                    output = ""
                 del running[s]
                 if os.path.exists(out):
                     data = json.loads(Path(out).read_text())
